@@ -140,6 +140,21 @@ def one(cases, rng, tier, d, rep, dtname):
             Am = dA.reshape(int(np.prod(M)), int(np.prod(Nn))).to(tn.complex128)
             return (dxl.reshape(-1).to(tn.complex128).conj() @ Am @ dyr.reshape(-1).to(tn.complex128))
         cases.append(Case(J("bilinear", tt_tokens(xl), tt_tokens(A), tt_tokens(yr)), impl, chk_val(box, bil), "bilinear/" + tag, True))
+        # deterministic family: the two vectors have different maximal ranks (x richer than y and y richer than x), so that any
+        # rank-dependent evaluation order of the form is exercised — with complex data the conjugation must stay on x
+        if 2 <= d <= 3:
+            for which in ("x-richer", "y-richer"):
+                Rx = [1] + [3 if which == "x-richer" else 1] * (d - 1) + [1]
+                Ry = [1] + [1 if which == "x-richer" else 3] * (d - 1) + [1]
+                xl2 = rand_tt(rng, M, Rx, dt)
+                yr2 = rand_tt(rng, Nn, Ry, dt)
+                dxl2, dyr2 = dense_of(xl2), dense_of(yr2)
+                box2, impl2 = boxed(lambda xl2=xl2, A=A, yr2=yr2: torchtt.bilinear_form(xl2, A, yr2))
+
+                def bil2(dxl2=dxl2, dyr2=dyr2):
+                    Am = dA.reshape(int(np.prod(M)), int(np.prod(Nn))).to(tn.complex128)
+                    return (dxl2.reshape(-1).to(tn.complex128).conj() @ Am @ dyr2.reshape(-1).to(tn.complex128))
+                cases.append(Case(J("bilinear", tt_tokens(xl2), tt_tokens(A), tt_tokens(yr2)), impl2, chk_val(box2, bil2), "bilinear/%s/%s" % (which, tag), True))
         for idx in subsets(d, rng, "quick")[:2]:
             box, impl = boxed(lambda A=A, idx=idx: A.sum(list(idx)))
 
